@@ -34,7 +34,7 @@ impl MqttSink {
     #[inline]
     /// Check if sink is ready
     pub fn is_ready(&self) -> bool {
-        if self.0.is_closed() {
+        if self.0.is_sink_closed() {
             false
         } else {
             self.0.is_ready()
@@ -51,7 +51,7 @@ impl MqttSink {
     ///
     /// Result indicates if connection is alive
     pub fn ready(&self) -> impl Future<Output = bool> {
-        if self.0.is_closed() {
+        if self.0.is_sink_closed() {
             Either::Left(ready(false))
         } else {
             self.0.wait_readiness().map_or_else(
@@ -216,7 +216,7 @@ impl PublishBuilder {
     #[inline]
     /// Send publish packet with `QoS 0`
     pub fn send_at_most_once(mut self, payload: Bytes) -> Result<(), SendPacketError> {
-        if self.shared.is_closed() {
+        if self.shared.is_sink_closed() {
             log::error!("Mqtt sink is disconnected");
             Err(SendPacketError::Disconnected)
         } else {
@@ -234,7 +234,7 @@ impl PublishBuilder {
         mut self,
         size: u32,
     ) -> Result<StreamingPayload, SendPacketError> {
-        if self.shared.is_closed() {
+        if self.shared.is_sink_closed() {
             log::error!("Mqtt sink is disconnected");
             Err(SendPacketError::Disconnected)
         } else {
@@ -260,7 +260,7 @@ impl PublishBuilder {
         mut self,
         payload: Bytes,
     ) -> impl Future<Output = Result<(), SendPacketError>> {
-        if self.shared.is_closed() {
+        if self.shared.is_sink_closed() {
             Either::Right(Ready::Err(SendPacketError::Disconnected))
         } else {
             self.packet.qos = codec::QoS::AtLeastOnce;
@@ -288,7 +288,7 @@ impl PublishBuilder {
         mut self,
         payload: Bytes,
     ) -> Result<(), SendPacketError> {
-        if self.shared.is_closed() {
+        if self.shared.is_sink_closed() {
             Err(SendPacketError::Disconnected)
         } else {
             // check readiness
@@ -330,7 +330,7 @@ impl PublishBuilder {
         mut self,
         payload: Bytes,
     ) -> impl Future<Output = Result<PublishReceived, SendPacketError>> {
-        if self.shared.is_closed() {
+        if self.shared.is_sink_closed() {
             Either::Right(Ready::Err(SendPacketError::Disconnected))
         } else {
             self.packet.qos = codec::QoS::ExactlyOnce;
@@ -378,7 +378,7 @@ impl PublishBuilder {
             inprocess: Cell::new(false),
         };
 
-        if self.shared.is_closed() {
+        if self.shared.is_sink_closed() {
             (Either::Right(Ready::Err(SendPacketError::Disconnected)), stream)
         } else {
             self.packet.qos = QoS::AtLeastOnce;
@@ -387,7 +387,7 @@ impl PublishBuilder {
             // handle client receive maximum, send window is checked
             // at the time packet gets encoded
             let fut = Either::Left(async move {
-                if self.shared.is_closed() {
+                if self.shared.is_sink_closed() {
                     return Err(SendPacketError::Disconnected);
                 }
                 if let Some(rx) = self.shared.wait_readiness() {
@@ -538,7 +538,7 @@ impl SubscribeBuilder {
 
     /// Send subscribe packet
     pub async fn send(self) -> Result<Vec<codec::SubscribeReturnCode>, SendPacketError> {
-        if self.shared.is_closed() {
+        if self.shared.is_sink_closed() {
             Err(SendPacketError::Disconnected)
         } else {
             // handle client receive maximum
@@ -621,7 +621,7 @@ impl UnsubscribeBuilder {
         let shared = self.shared;
         let filters = self.topic_filters;
 
-        if shared.is_closed() {
+        if shared.is_sink_closed() {
             Err(SendPacketError::Disconnected)
         } else {
             // handle client receive maximum
